@@ -711,6 +711,34 @@ static std::vector<Scenario> scenariosC01(bool thorough, const vp::Args& A) {
       }
     }
   }
+  // reception while ebusd is sending itself: foreign telegrams before / between / behind own exchanges, lost
+  // arbitrations followed by the winner's (valid) telegram, own exchanges failing at every step
+  for (int enh = 0; enh < 2; enh++) {
+    for (int shape = 0; shape < (thorough ? 4 : 3); shape++) {
+      Scenario s;
+      s.enhanced = enh;
+      s.busLostRetries = shape == 1 ? 0 : 2;
+      s.contenders = Bytes{0x10};
+      { Bytes w = ref::wirePart(ref::unhex("10fe070400")); w.erase(w.begin()); s.winnerTelegram = Script{send(w)}; }
+      Bytes m1 = {s.own, 0x08, 0xb5, 0x09, 0x01, 0x0d}, m2 = {s.own, 0xfe, 0x07, 0x04, 0x00}, m3 = {s.own, 0x10, 0xb5, 0x10, 0x01, 0xa9};
+      auto addReq = [&](const Bytes& m, const Bytes& r, bool late) {
+        ReqSpec q; q.master = m; q.responder = responder(m, r, 0); q.late = late; s.reqs.push_back(q);
+      };
+      Tel fMS = mk("0315b509020d00", "0277aa"), fMM = mk("0310b5100155"), fBC = mk("03fe070400");
+      switch (shape) {
+        case 0: addReq(m3, Bytes{}, false); s.foreign.push_back(telScript(fMS)); break;
+        case 1: addReq(m1, Bytes{0x01, 0x5a}, true); s.foreign.push_back(telScript(fMM)); s.foreign.push_back(telScript(fMS)); s.r = 1; break;
+        case 2: addReq(m2, Bytes{}, false); addReq(m1, Bytes{0x01, 0x5a}, false); s.foreign.push_back(telScript(fBC)); s.foreign.push_back(telScript(fMS)); break;
+        case 3: addReq(m1, Bytes{0x01, 0x5a}, true); addReq(m3, Bytes{}, true); s.foreign.push_back(telScript(fMS)); s.foreign.push_back(telScript(fMM)); s.r = 2; break;
+      }
+      s.tailSyns = 3;
+      s.k = thorough ? 2 : 1;
+      s.c = 1;
+      if (s.k + s.r >= 3) s.slices = 16;
+      s.name = std::string(enh ? "enh" : "plain") + "/active/shape" + std::to_string(shape) + "/k" + std::to_string(s.k);
+      v.push_back(s);
+    }
+  }
   return v;
 }
 
@@ -741,7 +769,7 @@ int main(int argc, char** argv) {
   b = Bounds{(int)A.getInt("dk", 0), (int)A.getInt("dc", 0), 0, A.getInt("hash", 1) != 0};
   if (prop == "C01") {
     scs = scenariosC01(th, A);
-    mf = [](World& w, VSink* s) { return std::vector<Monitor*>{new RecvMonitor(s)}; };
+    mf = [](World& w, VSink* s) { return std::vector<Monitor*>{new RecvMonitor(s, w.sc.reqs.empty() ? -1 : (int)w.sc.own)}; };
   } else if (prop == "C02") {
     scs = scenariosC02(th, A);
     mf = [](World& w, VSink* s) { return std::vector<Monitor*>{new ActiveMonitor(s, w.sc, true, false), new CompletionMonitor(s, &w, "C02/completion/")}; };
